@@ -9,6 +9,8 @@ for d in "${SEED_DIR:-$here/seeded}"/C*/[0-9]*; do
   [ -d "$d" ] || continue
   p=$(basename "$(dirname "$d")"); k=$(basename "$d")
   if [ -n "${ONLY_K:-}" ] && ! echo " $ONLY_K " | grep -q " $k "; then continue; fi
+  # SKIP_FILE: a file with lines starting with "Cnn/k " (e.g. an earlier, partial table): those changes are skipped
+  if [ -n "${SKIP_FILE:-}" ] && grep -q "^$p/$k " "$SKIP_FILE"; then continue; fi
   ids=$(python3 -c "import json;m=json.load(open('$d/meta.json'));print(' '.join(sorted(set([m.get('property','$p')]+[c['check'] for c in m.get('caught_by',[])]))))")
   for id in $ids; do
     res=$(MUTANT_OUT="$here/out/mutant" "$here/tools/try_mutant.sh" "$d/patch.diff" $id 2>&1)
